@@ -74,9 +74,9 @@ func (s *stepper) wr(a uint16, v uint8) {
 	s.info.Accesses = append(s.info.Accesses, Access{s.info.Cycles, true, a, v})
 }
 
-func (c *CPU) BC() uint16 { return uint16(c.B)<<8 | uint16(c.C) }
-func (c *CPU) DE() uint16 { return uint16(c.D)<<8 | uint16(c.E) }
-func (c *CPU) HL() uint16 { return uint16(c.H)<<8 | uint16(c.L) }
+func (c *CPU) BC() uint16     { return uint16(c.B)<<8 | uint16(c.C) }
+func (c *CPU) DE() uint16     { return uint16(c.D)<<8 | uint16(c.E) }
+func (c *CPU) HL() uint16     { return uint16(c.H)<<8 | uint16(c.L) }
 func (c *CPU) setBC(v uint16) { c.B, c.C = uint8(v>>8), uint8(v) }
 func (c *CPU) setDE(v uint16) { c.D, c.E = uint8(v>>8), uint8(v) }
 func (c *CPU) setHL(v uint16) { c.H, c.L = uint8(v>>8), uint8(v) }
